@@ -29,7 +29,20 @@ def _cfg_params(spec_dir, cfg):
 
 
 def _mismatches(out):
-    return re.findall(r'<<"MISMATCH", (\d+), "([^"]+)", (.*?), (.*?)>>', out)
+    """<<"MISMATCH", line, what, expected, got>> tuples printed by a monitor (TLC may wrap long tuples over several lines)."""
+    ts = vlib.tuples(out, "MISMATCH")
+    if len(ts) != out.count('"MISMATCH"') or any(len(t) != 4 for t in ts):
+        raise vlib.Infra("could not parse every MISMATCH tuple of the monitor output (%d of %d)" % (len(ts), out.count('"MISMATCH"')))
+    return [(str(t[0]), str(t[1]), json.dumps(t[2]) if isinstance(t[2], str) else str(t[2]),
+             json.dumps(t[3]) if isinstance(t[3], str) else str(t[3])) for t in ts]
+
+
+def _behaviours(out):
+    """Histories printed by the generators; guard against TLC wrapping a tuple (a silently shorter list)."""
+    bs = vlib.parse_sim_behaviours(out)
+    if len(bs) != out.count('"BEHAVIOUR"'):
+        raise vlib.Infra("could not parse every BEHAVIOUR tuple (%d of %d)" % (len(bs), out.count('"BEHAVIOUR"')))
+    return bs
 
 
 def _cut_behaviour(rows, line):
@@ -40,28 +53,29 @@ def _cut_behaviour(rows, line):
     return rows[start:end], i - start
 
 
-def breaker_replay(ctx, exe, tag, params, behaviours, trace_cfg_suffix):
-    """Execute behaviours on the real breaker, then monitor + conformance. Returns a dict of results."""
+def breaker_replay(ctx, exe, tag, params, behaviours, mon_cfg, conf_cfg, split=False):
+    """Execute behaviours on the real breaker; returns the trace and the two TLC jobs to run on it."""
     bfile = ctx.tmp("behaviours-%s.ndjson" % tag)
     vlib.write_ndjson(bfile, behaviours)
     trace = ctx.tmp("trace-%s.ndjson" % tag)
     cfgj = dict(params)
     cfgj["Seed"] = ctx.seed
-    p = ctx.run([exe, "breaker", bfile, trace, json.dumps(cfgj)], timeout=900)
+    cfgj["Split"] = split
+    p = ctx.run([exe, "breaker", bfile, trace, json.dumps(cfgj)], timeout=1800)
     stats = json.loads(p.stdout.strip().splitlines()[-1])
-    nlines = stats["events"]
 
     def mon():
-        return ctx.tlc(BSPEC, "Trace_BreakerAbs%s.cfg" % trace_cfg_suffix, module="Trace_BreakerAbs", dfs=True,
-                       files={"trace.ndjson": trace}, timeout=2400, heap="10g", name="mon-" + tag)
+        return ctx.tlc(BSPEC, mon_cfg, module="Trace_BreakerAbs", dfs=True,
+                       files={"trace.ndjson": trace}, timeout=3000, heap="10g", name="mon-" + tag)
 
     def conf():
-        return ctx.tlc(BSPEC, "Trace_Breaker%s.cfg" % trace_cfg_suffix, module="Trace_Breaker", dfs=True,
-                       files={"trace.ndjson": trace}, timeout=2400, heap="10g", expect_fail=True, name="conf-" + tag)
+        return ctx.tlc(BSPEC, conf_cfg, module="Trace_Breaker", dfs=True,
+                       files={"trace.ndjson": trace}, timeout=3000, heap="10g", expect_fail=True, name="conf-" + tag)
+    return {"tag": tag, "trace": trace, "stats": stats, "lines": stats["events"], "mon": mon, "conf": conf, "n": len(behaviours)}
 
-    with ThreadPoolExecutor(2) as ex:
-        fm, fc = ex.submit(mon), ex.submit(conf)
-        m, c = fm.result(), fc.result()
+
+def breaker_judge(r, m, c):
+    nlines, tag = r["lines"], r["tag"]
     if m.depth != nlines + 1:
         raise vlib.Infra("monitor did not consume the whole trace %s (%d of %d)\n%s" % (tag, m.depth - 1, nlines, m.out[-1500:]))
     drift = None
@@ -71,47 +85,109 @@ def breaker_replay(ctx, exe, tag, params, behaviours, trace_cfg_suffix):
         drift = "%s: conformance spec could not evaluate line %d: %s" % (tag, c.depth, c.error[:300])
     elif c.depth != nlines + 1:
         drift = "%s: trace rejected by the transcription at line %d of %d" % (tag, c.depth, nlines)
-    return {"trace": trace, "stats": stats, "lines": nlines, "mismatches": _mismatches(m.out), "drift": drift}
+    r["mismatches"], r["drift"] = _mismatches(m.out), drift
+    return r
+
+
+def _split_known(ctx, r):
+    """Mismatches of a split (race) replay: a history deviates `as the known finding describes` exactly when a caller resumed from
+    the hook with a stale admission test (the driver logs stale = the breaker was neither `open and expired` nor half-open when
+    toHalfOpen was about to run) at or before its first mismatching line. Returns (#known histories, witness, other mismatches)."""
+    import bisect
+    if not r["mismatches"]:
+        return 0, None, []
+    rows = vlib.read_ndjson(r["trace"])
+    starts = [k for k, x in enumerate(rows) if x["op"] == "New"]
+    first = {}
+    for m in r["mismatches"]:
+        line = int(m[0]) - 1
+        b0 = starts[bisect.bisect_right(starts, line) - 1]
+        if b0 not in first or line < first[b0][0]:
+            first[b0] = (line, m)
+    known, witness, bad = 0, None, []
+    for b0, (line, m) in sorted(first.items()):
+        if any(rows[k].get("stale") for k in range(b0, line + 1)):
+            known += 1
+            if witness is None or line - b0 < witness[1] - witness[0]:
+                witness = (b0, line, m, [x["op"] + ":" + x.get("c", "") + ":" + x.get("res", x.get("out", "")) for x in rows[b0 + 1:line + 1]])
+        else:
+            bad.append((r["tag"],) + m)
+    return known, witness, bad
 
 
 def run_c47(ctx, pid):
     quick = ctx.quick
-    # 1. design: invariants and action properties of the transcription (exhaustive, bounded)
-    mc = ctx.tlc_must_hold(BSPEC, "MC_Breaker.cfg" if quick else "MC_Breaker_t.cfg", module="MC_Breaker",
-                           timeout=300 if quick else 3000, workers=4 if quick else 6)
-    ctx.log("design: %d distinct states, %d transitions, all rules hold" % (mc.distinct, mc.generated))
-
-    # 2. behaviours out of TLC: transition cover (P1, and P2 in thorough) + random walks (P2)
-    gcfg = "Gen_Breaker.cfg"
-    g = ctx.tlc(BSPEC, gcfg, module="Gen_Breaker", workers=1, deadlock_check=False, timeout=900, name="cover-p1")
-    cover = vlib.parse_sim_behaviours(g.out)
-    if len(cover) < 5000:
-        raise vlib.Infra("transition cover produced too little (%d)" % len(cover))
-    ncover_all = len(cover)
-    if quick:
-        cover = vlib.sample(ctx.rng, cover, 2000)
-    s = ctx.tlc(BSPEC, "Sim_Breaker.cfg", module="Gen_Breaker", simulate="num=%d" % (120 if quick else 3000), depth=41,
-                deadlock_check=False, workers=1, timeout=900, name="sim-p2")
-    walks = vlib.parse_sim_behaviours(s.out)
+    pool = ThreadPoolExecutor(4 if quick else 3)
+    # 1. design (exhaustive, bounded).  MC_Breaker_race.cfg: the repaired design with the interleaving point inside tryAcquire (it
+    #    subsumes MC_Breaker.cfg: a Park immediately followed by Resume is the atomic Begin); MC_Breaker_race_asis.cfg: the code as
+    #    it is (Defects = {"StaleHalfOpen"}) must violate a rule, otherwise the Defects branch is stale.
+    f_rep = pool.submit(ctx.tlc_must_hold, BSPEC, "MC_Breaker_race.cfg", module="MC_Breaker", timeout=900, workers=3, name="race-repaired")
+    f_asis = pool.submit(ctx.tlc, BSPEC, "MC_Breaker_race_asis.cfg", module="MC_Breaker", timeout=900, workers=2, expect_fail=True, name="race-asis")
+    # 2. behaviours out of TLC
+    f_grace = pool.submit(ctx.tlc, BSPEC, "Gen_Breaker_race.cfg", module="Gen_Breaker", workers=1, deadlock_check=False, timeout=1800, name="cover-race")
+    f_sim = pool.submit(ctx.tlc, BSPEC, "Sim_Breaker.cfg", module="Gen_Breaker", simulate="num=%d" % (120 if quick else 1500), depth=41,
+                        deadlock_check=False, workers=1, timeout=1800, name="sim-p2")
+    extra = {}
+    if not quick:
+        extra["mc1"] = pool.submit(ctx.tlc_must_hold, BSPEC, "MC_Breaker.cfg", module="MC_Breaker", timeout=900, workers=3)
+        extra["mc2"] = pool.submit(ctx.tlc_must_hold, BSPEC, "MC_Breaker_t.cfg", module="MC_Breaker", timeout=3000, workers=5)
+        extra["ideal"] = pool.submit(ctx.tlc_must_hold, BSPEC, "MC_BreakerIdeal.cfg", module="MC_BreakerIdeal", timeout=1800, workers=3)
+        extra["g1"] = pool.submit(ctx.tlc, BSPEC, "Gen_Breaker.cfg", module="Gen_Breaker", workers=1, deadlock_check=False, timeout=1800, name="cover-p1")
+        extra["g2"] = pool.submit(ctx.tlc, BSPEC, "Gen_Breaker_t.cfg", module="Gen_Breaker", workers=1, deadlock_check=False, timeout=3000, name="cover-p2")
+    mcr, mca = f_rep.result(), f_asis.result()
+    if not mca.violated:
+        raise vlib.Infra("the model with Defects = {StaleHalfOpen} satisfies every rule: stale Defects branch")
+    ctx.log("design: repaired design %d distinct states / %d transitions, all rules hold; the code as it is violates %s"
+            % (mcr.distinct, mcr.generated, mca.violated))
+    race_all = _behaviours(f_grace.result().out)
+    walks = _behaviours(f_sim.result().out)
+    with_k = [b for b in race_all if any(o.startswith("K:") for o in b)]
+    without_k = [b for b in race_all if not any(o.startswith("K:") for o in b)]
+    if len(with_k) < 5000 or len(without_k) < 1000:
+        raise vlib.Infra("transition cover produced too little (%d, %d)" % (len(with_k), len(without_k)))
     if len(walks) < 500 or any(len(b) != 40 for b in walks):
         raise vlib.Infra("random walk generation produced too little (%d)" % len(walks))
-    cover2 = []
+    race = (vlib.sample(ctx.rng, with_k, 1500) + vlib.sample(ctx.rng, without_k, 700)) if quick else race_all
+    cover1 = cover2 = []
     if not quick:
-        g2 = ctx.tlc(BSPEC, "Gen_Breaker_t.cfg", module="Gen_Breaker", workers=1, deadlock_check=False, timeout=3000, name="cover-p2")
-        cover2 = vlib.parse_sim_behaviours(g2.out)
-    ctx.log("behaviours: %d of %d covering histories (P1), %d covering histories (P2), %d random walks (P2)"
-            % (len(cover), ncover_all, len(cover2), len(walks)))
-    p1, p2 = _cfg_params(BSPEC, gcfg), _cfg_params(BSPEC, "Sim_Breaker.cfg")
-    if p1 != _cfg_params(BSPEC, "Trace_BreakerAbs.cfg") or p2 != _cfg_params(BSPEC, "Trace_BreakerAbs_p2.cfg") \
-            or p1 != _cfg_params(BSPEC, "Trace_Breaker.cfg") or p2 != _cfg_params(BSPEC, "Trace_Breaker_p2.cfg"):
-        raise vlib.Infra("parameter sets of generator and trace configurations differ")
+        for k in ("mc1", "mc2", "ideal"):
+            extra[k].result()
+        cover1 = _behaviours(extra["g1"].result().out)
+        cover2_all = _behaviours(extra["g2"].result().out)
+        cover2 = vlib.sample(ctx.rng, cover2_all, 30000)      # 361 755 transitions in the P2 graph: a seeded sample of them
+    ctx.log("behaviours: %d of %d covering histories of the split model (P1; %d park a caller inside tryAcquire), %d + %d covering "
+            "histories of the unsplit model (P1, P2), %d random walks (P2)"
+            % (len(race), len(race_all), sum(1 for b in race if any(o.startswith("K:") for o in b)), len(cover1), len(cover2), len(walks)))
+    p1, p2 = _cfg_params(BSPEC, "Gen_Breaker_race.cfg"), _cfg_params(BSPEC, "Sim_Breaker.cfg")
+    for cfg, pp in (("Trace_BreakerAbs.cfg", p1), ("Trace_Breaker.cfg", p1), ("Trace_Breaker_race.cfg", p1), ("Gen_Breaker.cfg", p1),
+                    ("Trace_BreakerAbs_p2.cfg", p2), ("Trace_Breaker_p2.cfg", p2), ("Gen_Breaker_t.cfg", p2)):
+        if _cfg_params(BSPEC, cfg) != pp:
+            raise vlib.Infra("parameter set of %s differs from the generator's" % cfg)
 
-    # 3. + 4. replay on the real breaker and judge
+    # 3. replay on the real breaker   4. judge (monitor = verdict, conformance = drift)
     exe = ctx.build("breakerbackoff")
-    r1 = breaker_replay(ctx, exe, "p1", p1, cover, "")
-    r2 = breaker_replay(ctx, exe, "p2", p2, cover2 + walks, "_p2")
+    reps = [breaker_replay(ctx, exe, "race", p1, race, "Trace_BreakerAbs.cfg", "Trace_Breaker_race.cfg", split=True),
+            breaker_replay(ctx, exe, "p2", p2, cover2 + walks, "Trace_BreakerAbs_p2.cfg", "Trace_Breaker_p2.cfg")]
+    if cover1:
+        reps.append(breaker_replay(ctx, exe, "p1", p1, cover1, "Trace_BreakerAbs.cfg", "Trace_Breaker.cfg"))
+    jobs = [(r, pool.submit(r["mon"]), pool.submit(r["conf"])) for r in reps]
+    reps = [breaker_judge(r, fm.result(), fc.result()) for r, fm, fc in jobs]
+    pool.shutdown()
+    by_tag = {r["tag"]: r for r in reps}
+    r3 = by_tag["race"]
+    race_known, witness, race_bad = _split_known(ctx, r3)
+    if race_known:
+        b0, line, m, hist = witness
+        if ctx.is_known("BreakerStaleHalfOpen"):
+            ctx.report_known("BreakerStaleHalfOpen", "%d histories in which a caller parked between the openUntil test and toHalfOpen() "
+                             "resumes on a stale test; e.g. %s expected %s got %s after %s" % (race_known, m[1], m[2], m[3], json.dumps(hist)))
+        else:
+            race_bad.append(("race",) + m)
+    ctx.log("race: %d stale resumes on the real code; %d histories deviate as the known finding describes, %d otherwise"
+            % (r3["stats"]["stale_resumes"], race_known, len(race_bad)))
 
-    behaviours = cover + cover2 + walks
+    behaviours = race + cover1 + cover2 + walks
+
     def nontrivial(b):   # reaches Open at least (two failures are needed at the very least) and lets time pass
         return sum(1 for o in b if o.startswith("E:") and not o.endswith(":ok") and not o.endswith(":cancel")) >= 2 and "T" in b
     distinct_nt = len({json.dumps(b) for b in behaviours if nontrivial(b)})
@@ -120,47 +196,53 @@ def run_c47(ctx, pid):
         inflight, mx = set(), 0
         for o in b:
             f = o.split(":")
-            if f[0] == "B" and f[2] == "admitted":
-                inflight.add(f[1]); mx = max(mx, len(inflight))
-            elif f[0] == "E":
+            if f[0] == "K" or (f[0] == "B" and f[2] == "admitted"):
+                inflight.add(f[1])
+                mx = max(mx, len(inflight))
+            elif f[0] == "E" or (f[0] == "B" and f[2] == "rejected"):
                 inflight.discard(f[1])
         concurrent += mx >= 2
-    drift = "; ".join(d for d in (r1["drift"], r2["drift"]) if d) or None
-    mism = [("p1",) + m for m in r1["mismatches"]] + [("p2",) + m for m in r2["mismatches"]]
+    drift = "; ".join(r["drift"] for r in reps if r["drift"]) or None
+    mism = race_bad + [(r["tag"],) + m for r in reps if r["tag"] != "race" for m in r["mismatches"]]
     cov = {
         "states": ctx.states()[0], "transitions": ctx.states()[1],
         "traces_validated_against_impl": len(behaviours),
-        "samples": [cover[0], cover[len(cover) // 2], cover[-1], walks[0]],
+        "samples": [race[0], race[len(race) // 2], race[-1], walks[0]],
         "evaluations": len(behaviours), "distinct_nontrivial": distinct_nt,
-        "rule": "P1: for every transition of the bounded state graph of Breaker.tla (Gen_Breaker.cfg) a shortest history taking it "
-                "(quick: seeded sample of 2000 of them; thorough: all, plus the cover of Gen_Breaker_t.cfg for P2); P2: TLC random walks "
-                "of depth 40 over 3 callers and 5 outcomes (TLC emits each walk with every alternative last step); every history is finished by completing the calls in flight and reading the "
-                "metrics; non-trivial = at least two failing outcomes and a clock tick",
-        "events_validated": r1["lines"] + r2["lines"], "covering_histories_total_p1": ncover_all,
-        "covering_histories_run": len(cover) + len(cover2), "random_walks": len(walks),
+        "rule": "P1: for every transition of the bounded state graph of Breaker.tla with the interleaving point inside tryAcquire "
+                "(Gen_Breaker_race.cfg, the model of the code as it is) a shortest history taking it (quick: seeded sample of 1500 that park "
+                "a caller at the hook + 700 that do not; thorough: all, plus the cover of the unsplit model Gen_Breaker.cfg (P1) and a "
+                "seeded sample of 30000 of the cover of Gen_Breaker_t.cfg (P2)); P2: TLC random walks of depth 40 over 3 callers and 5 outcomes (TLC emits each walk with every "
+                "alternative last step); every history is finished by resuming parked callers, completing the calls in flight and reading "
+                "the metrics; non-trivial = at least two failing outcomes and a clock tick",
+        "events_validated": sum(r["lines"] for r in reps), "covering_histories_total_split_model": len(race_all),
+        "covering_histories_run": len(race) + len(cover1) + len(cover2), "random_walks": len(walks),
         "histories_with_concurrent_callers": concurrent,
-        "exhaustive": not quick, "conformance_drift": drift,
-        "model_prediction_mismatches": r1["stats"]["pred_mismatch"] + r2["stats"]["pred_mismatch"],
-        "ops_skipped_by_driver": r1["stats"]["skipped"] + r2["stats"]["skipped"],
-        "monitor_mismatches": len(mism), "parameters": {"P1": p1, "P2": p2},
+        "race_parks": r3["stats"]["parks"], "race_stale_resumes_on_real_code": r3["stats"]["stale_resumes"],
+        "race_histories_deviating_as_known_finding": race_known, "race_model_asis_violates": mca.violated,
+        "exhaustive": False, "transition_cover_p1_complete": not quick, "conformance_drift": drift,
+        "model_prediction_mismatches": sum(r["stats"]["pred_mismatch"] for r in reps),
+        "ops_skipped_by_driver": sum(r["stats"]["skipped"] for r in reps),
+        "monitor_mismatches": sum(len(r["mismatches"]) for r in reps), "parameters": {"P1": p1, "P2": p2},
     }
     assumptions = [
         "fake monotone clock injected through the public WithClock option; one tick = 1 s",
         "concurrency is explored at the granularity Begin (ctx check + tryAcquire up to the entry of the user function) / End "
         "(return of the user function + record + release): the driver holds the user function, so these segments interleave between "
-        "callers but the instructions inside a segment do not (racing tryAcquire/record of two callers is not explored)",
-        "bounded: parameter sets P1/P2, clock and sample bounds of MC_Breaker*.cfg, walk depth 40",
+        "callers, plus one interleaving point inside tryAcquire (between the openUntil test and toHalfOpen, verifhook + puppet scheduler); "
+        "the other instructions inside a segment do not interleave (e.g. two racing record() calls are not explored)",
+        "bounded: parameter sets P1/P2, clock and sample bounds of the MC_Breaker*.cfg files, walk depth 40",
     ]
     if mism:
         tag, line, what, exp, got = mism[0]
-        r = r1 if tag == "p1" else r2
+        r = by_tag[tag]
         rows = vlib.read_ndjson(r["trace"])
         beh, idx = _cut_behaviour(rows, int(line))
         snippet = ctx.tmp("violation.ndjson")
         vlib.write_ndjson(snippet, beh)
         rp = ctx.save_replay("seed%d-%s" % (ctx.seed, tag), snippet,
                              text="parameters %s = %s\nfailing line (0-based, within the behaviour) %d: %s expected %s got %s\n"
-                                  % (tag, json.dumps(p1 if tag == "p1" else p2), idx, what, exp, got))
+                                  % (tag, json.dumps(p2 if tag == "p2" else p1), idx, what, exp, got))
         ctx.evidence("model_checking", cov, assumptions, violations=len(mism))
         raise vlib.Violation(pid, rp, "monitor: %s on the real breaker is %s, the state machine says %s (%s trace line %s; %d mismatches)"
                              % (what, got, exp, tag, line, len(mism)))
@@ -329,10 +411,10 @@ def fault_window_part(ctx, exe):
     mc = ctx.tlc_must_hold(KSPEC, "MC_FaultWindow.cfg", module="MC_FaultWindow", timeout=300, workers=2)
     g = ctx.tlc(KSPEC, "Gen_FaultWindow.cfg" if quick else "Gen_FaultWindow_t.cfg", module="Gen_FaultWindow", workers=1,
                 deadlock_check=False, timeout=1200, name="fw-gen")
-    exh = vlib.parse_sim_behaviours(g.out)
+    exh = _behaviours(g.out)
     s = ctx.tlc(KSPEC, "Sim_FaultWindow.cfg", module="Gen_FaultWindow", simulate="num=%d" % (150 if quick else 3000),
                 deadlock_check=False, workers=1, timeout=900, name="fw-sim")
-    sim = vlib.parse_sim_behaviours(s.out)
+    sim = _behaviours(s.out)
     if len(exh) < 5000 or len(sim) < 100:
         raise vlib.Infra("fault-window behaviour generation produced too little (%d, %d)" % (len(exh), len(sim)))
     behaviours = exh + sim
